@@ -14,7 +14,7 @@ import ast
 from ..cfg import CFG
 from ..core import AnalysisError, Repo, Report, call_name, calls_in, kwarg, norm, parents_map, walk_local
 from ..sites import guard_chain
-from .util import canon, cguards
+from .util import canon, cguards, cguards_any
 
 
 def run(repo: Repo, rep: Report, tier: str) -> None:
@@ -153,5 +153,5 @@ def run(repo: Repo, rep: Report, tier: str) -> None:
                   "; ".join(("" if p else "not ") + g[:90] for g, p in gs), fb.loc(c))
     pop = repo.func("ConnectionPlanner._populate_wire_connections")
     direct_loops = [n for n in walk_local(pop.node) if isinstance(n, ast.For) and isinstance(n.iter, ast.Call) and call_name(n.iter) == "sorted" and any(call_name(x) == "_route_edge_directly" for x in calls_in(n))]
-    ok = any(not any("mst" in g.lower() for g, _ in cguards(pop, n)) for n in direct_loops)
+    ok = any(not any("mst" in g.lower() for g, _ in cguards_any(pop, n)) for n in direct_loops)
     rep.check(ok, "C04-R5", "bidirectional sinks are always routed directly", "an unconditional loop routes them with _route_edge_directly" if ok else "missing", pop.loc())
